@@ -191,11 +191,29 @@ func runLRU(cfg *config) {
 		}
 	}
 	cfg.st.Notes["exhaustive"] = fmt.Sprintf("all %d-op sequences over %d keys x {set clean,set dirty,get,flip clean,flip dirty} at caps 0..3: %d cases", depth, nkeys, exh)
+	// structured: a full cache whose d coldest entries are dirty and the rest clean, then a new key
+	// (the eviction walk has to pass every dirty entry, however many there are), then the cleaned case
+	for _, cap := range []int{4, 63, 64, 65, 66, 100, 128, 129, 300} {
+		for _, d := range []int{0, 1, 2, cap / 2, cap - 2, cap - 1, cap} {
+			if d < 0 || d > cap {
+				continue
+			}
+			var ops []lruOp
+			for k := 0; k < cap; k++ {
+				ops = append(ops, lruOp{kind: "set", k: uint64(k), id: uint64(5000 + k), d: k < d})
+			}
+			ops = append(ops, lruOp{kind: "set", k: uint64(cap + 1), id: 9001, d: false})
+			ops = append(ops, lruOp{kind: "get", k: uint64(d)}, lruOp{kind: "get", k: 0})
+			ops = append(ops, lruOp{kind: "flip", k: 0, d: false}, lruOp{kind: "set", k: uint64(cap + 2), id: 9002, d: true})
+			id++
+			lruRunCase(cfg, id, cap, ops)
+		}
+	}
 	// random long sequences at larger capacities (and the default 10000)
 	nrand := 60 * cfg.scale
 	for i := 0; i < nrand; i++ {
 		r := cfg.rng.Fork()
-		cap := []int{1, 2, 3, 5, 8, 16, 64}[r.Intn(7)]
+		cap := []int{1, 2, 3, 5, 8, 16, 64, 65, 100, 129, 200}[r.Intn(11)]
 		n := r.Range(20, 400)
 		if i%20 == 19 {
 			cap = 10000
